@@ -3,6 +3,7 @@
 Layouts: bit-vectors + linear integer index arithmetic; rows N = 4*Nb and column blocks K = 64*Kb (v2) / 8*C (v1) symbolic.
 The functions assert a CUDA device: the symbolic tensors simply carry device 'cuda' (no GPU is needed to verify the text).
 """
+from qvc.run import REPO as _REPO
 import ast
 import copy
 
@@ -358,7 +359,7 @@ def _cpu_module(relpath, modname):
     import sys
     import types
 
-    src = open("/repo/" + relpath).read()
+    src = open(_REPO + "/" + relpath).read()
     kept = [ln for ln in src.split("\n") if not re.match(r'\s*assert .*device\.type == "cuda"\s*$', ln)]
     mod = types.ModuleType(modname)
     mod.__package__ = modname.rsplit(".", 1)[0]
@@ -373,7 +374,7 @@ def replay_layouts(model, seed, which, reorder=False):
 
     torch.manual_seed(seed)
     P = _cpu_module(AWQP, "optimum.quanto.tensor.qbits.awq.packed")
-    sys.path.insert(0, "/repo/external/awq")
+    sys.path.insert(0, _REPO + "/external/awq")
     if which == "v2":
         from pack_intweight import pack_intweight
         for (n, k) in ((4, 64), (8, 128), (12, 192), (4, 320)):
@@ -405,7 +406,7 @@ def replay_repr(model, seed):
     w = torch.randn(8, 256, dtype=torch.float16)
     sc, zp = MaxOptimizer()(w, bits=4, axis=0, group_size=128)
     q = AffineQuantizer.apply(w, qint4, 0, 128, sc, zp)
-    src = open("/repo/" + AWQQ).read().replace("from .packed import AWQPackedTensor, AWQPacking", "")
+    src = open(_REPO + "/" + AWQQ).read().replace("from .packed import AWQPackedTensor, AWQPacking", "")
     import re
     src = "\n".join(ln for ln in src.split("\n") if not re.match(r'\s*assert .*device\.type == "cuda"\s*$', ln))
     ns = {"AWQPackedTensor": P.AWQPackedTensor, "AWQPacking": P.AWQPacking, "__name__": "optimum.quanto.tensor.qbits.awq.qbits", "__package__": "optimum.quanto.tensor.qbits.awq"}
